@@ -30,7 +30,7 @@ func init() {
 
 func runC14(x *Ctx) {
 	x.C.Rule("C14.R1", "tokenize partitions the input: no tail is dropped", 3)
-	x.C.Rule("C14.R2", "each token yields exactly one segment printing as that token, or an error; slice tokens have exactly two parts; quoted lookups are fields; the whole token is examined; field names verbatim", 7)
+	x.C.Rule("C14.R2", "each token yields exactly one segment printing as that token, or an error; slice tokens have exactly two parts; quoted lookups are fields; the whole token is examined; field names verbatim; printing appends the parsed texts", 9)
 	x.C.Rule("C14.R3", "policy tuple positions and arities agree between decoder and encoder; data values are kept verbatim", 8)
 
 	if f := x.fn("C14.R1", selPkg+"tokenize"); f != nil {
@@ -39,6 +39,7 @@ func runC14(x *Ctx) {
 	if f := x.fn("C14.R2", selPkg+"Parse"); f != nil {
 		parseAppendRule(x, f)
 	}
+	selectorPrinting(x)
 	tupleAgreement(x)
 	runTotalLoops(x, "C14")
 	packageCodecs(x, "C14.R3", 2, "pkg/policy", "pkg/policy/selector", "pkg/policy/literal", "pkg/args", "pkg/meta")
@@ -726,4 +727,47 @@ func colonRange(re *syntax.Regexp) (int, int) {
 		return 0, 99
 	}
 	return 0, 0
+}
+
+// selectorPrinting (C14.R2): a selector prints as the concatenation of the texts its segments were parsed from
+// (segment.str), in order. Selector.String and segment.String, with whatever helpers they use in the package,
+// only append those texts: strings.Builder / bytes.Buffer writes, string concatenation, strings.Join. Any
+// function that rewrites text (Replace*, regexp, Trim*, ToLower, Fields ...) makes the printed selector another
+// selector than the one that was read - and ToIPLD writes selectors through String().
+func selectorPrinting(x *Ctx) {
+	for _, name := range []string{"(" + strings.TrimSuffix(selPkg, ".") + ".Selector).String", "(" + strings.TrimSuffix(selPkg, ".") + ".segment).String"} {
+		f := x.fn("C14.R2", name)
+		if f == nil {
+			continue
+		}
+		bad := ""
+		for g := range x.P.Reach([]*ssa.Function{f}) {
+			if !x.P.IsLibrary(g) || x.P.PkgPathOf(g) != x.P.PkgPathOf(f) {
+				continue
+			}
+			for _, b := range g.Blocks {
+				for _, in := range b.Instrs {
+					c, ok := in.(ssa.CallInstruction)
+					if !ok {
+						continue
+					}
+					h := c.Common().StaticCallee()
+					if h == nil || h.Pkg == nil {
+						continue
+					}
+					pp := h.Pkg.Pkg.Path()
+					switch {
+					case pp == x.P.PkgPathOf(f):
+					case pp == "strings" && h.Signature.Recv() != nil: // Builder methods
+					case pp == "bytes" && h.Signature.Recv() != nil:
+					case pp == "strings" && (h.Name() == "Join" || h.Name() == "Repeat"):
+					case pp == "strconv" || pp == "fmt":
+					default:
+						bad += fmt.Sprintf("%s: %s calls %s.%s while printing a selector: the text printed is no longer the text that was parsed\n", x.P.Pos(in.Pos()), load.ShortName(g), pp, h.Name())
+					}
+				}
+			}
+		}
+		x.C.Obl("C14.R2", "prints-verbatim:"+name, x.pos(f), "the selector prints as the concatenation of its segments' own texts", bad == "", dedupLines(bad))
+	}
 }
